@@ -91,6 +91,8 @@ type Runner struct {
 	qiFeeShapes map[string]bool
 	// Contracts are the forwarder contracts the harness tried to deploy (address known at signing time).
 	Contracts []common.Address
+	// MinerDataFaults lets OpLockupMode also choose header data no stock miner produces (C13 only).
+	MinerDataFaults bool
 	// LockupMode is the (lockup byte, contract or nil) the miner currently asks for.
 	LockByte     uint8
 	LockContract *common.Address
@@ -212,7 +214,22 @@ func (r *Runner) Step(op Op) bool {
 		}
 		n.Zone().SetLockupByte(r.LockByte)
 		n.Zone().Slice().VerifSetLockupContract(r.LockContract)
-		w.Tr.Event("lockupmode byte=%d contract=%v", r.LockByte, r.LockContract != nil)
+		stray := 0
+		if r.MinerDataFaults {
+			// a miner that assembles its own header data: 1..19 stray bytes after the lockup byte (neither the plain nor a
+			// contract layout; the protocol declares such a reward lost)
+			var extra []byte
+			if op.C%4 == 3 {
+				stray = 1 + op.D%19
+				extra = make([]byte, stray)
+				for i := range extra {
+					extra[i] = byte(0xA0 + i)
+				}
+				simkit.Global.Inc("fault.miner_data_stray_bytes")
+			}
+			n.Zone().Slice().VerifSetMinerData(extra)
+		}
+		w.Tr.Event("lockupmode byte=%d contract=%v stray=%d", r.LockByte, r.LockContract != nil, stray)
 	case OpClaim:
 		if len(r.Contracts) == 0 {
 			return true
